@@ -353,8 +353,24 @@ def run_case(ctx):
         q1, b1, J1, q2, b2, J2 = a
         step += 1
         ctx.log(['deliver', step, api, q1, list(b1), q2, list(b2), [int(f) for f in flip]])
+        def as_arg(bd, dim=dim):
+            # a boundary may be named by its (axis, side) pair or by the documented strings
+            names = {(dim - 1, 0): 'left', (dim - 1, 1): 'right', (dim - 2, 0): 'bottom', (dim - 2, 1): 'top',
+                     (dim - 3, 0): 'front', (dim - 3, 1): 'back'}
+            if ex.chance(25) and tuple(bd) in names:
+                ctx.count('bdspec.as.string')
+                return names[tuple(bd)]
+            return bd
+        use_flip = flip
+        if not any(flip) and ex.chance(30):
+            use_flip = None         # "no flip" may also be expressed by omitting the argument
         if api == 'join_boundaries':
-            if rev:
+            b1a, b2a = as_arg(b1), as_arg(b2)
+            if True:
+                r = ctx.call('join_boundaries', MP.join_boundaries, q1, b1a, q2, b2a, use_flip)
+                M1 = face_dofs(cx['shapes'][q1], b1[0], b1[1])
+                M2 = face_dofs(cx['shapes'][q2], b2[0], b2[1], flip)
+            elif rev:
                 # reversed orientation: flip now applies to the (old) first patch's face
                 r = ctx.call('join_boundaries', MP.join_boundaries, q1, b1, q2, b2, flip)
                 # model: flip applied to second argument's face = J2 side
